@@ -106,6 +106,11 @@ def run(ctx):
     ctx.run_rule("R7", lambda c: rule_R7(c, f))
     # counters that are children of a vector: racing first requests must yield ONE child, or increments on the orphan are lost (shared with C10.R2)
     ctx.run_rule("R8", lambda c: vc.rule_double_checked_creation(c, f, "R8"))
+    # counters fed through a local counter VECTOR: a cache entry that survives the removal of the shared child flushes into an orphan (shared with C12.L10)
+    from . import C06, C12
+    ctx.rule("R9", "local counter vectors never keep a cached local bound to a removed child (shared with C12.L10): remove_label_values drops the local entry before and "
+                   "independently of the shared delete; with_label_values caches by the shared hash; new/clone start empty")
+    ctx.run_rule("R9", lambda c: C06._as(c, "R9", lambda s_: C12.rule_vec_forms(s_, f, "L10"), keep=lambda k: "GenericLocalCounterVec::" in k))
     if ctx.tier == "thorough":
         for cfgname in ("plain", "nightlyproc", "push"):
             g = ctx.facts(cfgname)
